@@ -304,6 +304,13 @@ fn routes(c: &Reject) -> Vec<Route> {
         let txt = format!("{:04}-{:02}-{:02}T{:02}:{:02}:{:02}.{:09} {}", y, m, d, hh, mm, ss, ns, SCALE_NAMES[c.s]);
         v.push(Route { name: "from_gregorian_str", eff: c.clone(), got: run(&move || Epoch::from_gregorian_str(&txt).ok()) });
     }
+    // and the routes that spell the month by name (upper-case three-letter and lower-case full name), UTC only
+    if ts == TimeScale::UTC && (1..=12).contains(&m) && (0..=9999).contains(&y) && d <= 99 && hh <= 99 && mm <= 99 && ss <= 99 {
+        let short = format!("{:02} {} {:04} {:02}:{:02}:{:02}", d, MONTH_SHORT[(m - 1) as usize].to_uppercase(), y, hh, mm, ss);
+        v.push(Route { name: "from_format_str(%d %b %Y %H:%M:%S)", eff: with(hh, mm, ss, 0), got: run(&move || Epoch::from_format_str(&short, "%d %b %Y %H:%M:%S").ok()) });
+        let long = format!("{:02} {} {:04} {:02}:{:02}:{:02}", d, MONTH_LONG[(m - 1) as usize].to_lowercase(), y, hh, mm, ss);
+        v.push(Route { name: "from_format_str(%d %B %Y %H:%M:%S)", eff: with(hh, mm, ss, 0), got: run(&move || Epoch::from_format_str(&long, "%d %B %Y %H:%M:%S").ok()) });
+    }
     if ts == TimeScale::UTC {
         v.push(Route { name: "maybe_from_gregorian_utc", eff: c.clone(), got: run(&move || Epoch::maybe_from_gregorian_utc(y, m, d, hh, mm, ss, ns).ok()) });
         v.push(Route { name: "from_gregorian_utc", eff: c.clone(), got: run(&move || Some(Epoch::from_gregorian_utc(y, m, d, hh, mm, ss, ns))) });
